@@ -124,18 +124,20 @@ def debug_block(ex, stmt, fr):
     """Abstract block `if debug:` of ModelGroup.run. Declared frame: detector._intermediate (xarray bookkeeping,
     boundary). Anything in it that invokes a model is NOT abstracted: those calls are executed symbolically (so a
     second invocation shows up in TRACE); writes to the model / group objects are outside the frame."""
+    types = _typed_names(fr.fi.node, fr.fi.cls.name if fr.fi.cls else None)
+    model_names = {n for n, t in types.items() if t == "ModelFunction"}
     for n in ast.walk(ast.Module(body=stmt.body, type_ignores=[])):
         if isinstance(n, (ast.Assign, ast.AugAssign)):
             for t in (n.targets if isinstance(n, ast.Assign) else [n.target]):
                 root = ast.unparse(t)
-                if root.startswith(("model.", "self.")):
+                if root.startswith(tuple(f"{m}." for m in model_names | {"self"})):
                     raise Unsupported(f"debug block assigns {root}: outside the declared frame")
     for n in ast.walk(ast.Module(body=stmt.body, type_ignores=[])):
         if isinstance(n, ast.Call):
             f = ast.unparse(n.func)
-            if f in ("model", "model.__call__", "self.run") or f.endswith(".run_pipeline"):
+            if f in model_names or f in {f"{m}.__call__" for m in model_names} or f == "self.run" or f.endswith(".run_pipeline"):
                 ex.ev(n, fr)
-            elif f == "model.func":
+            elif f in {f"{m}.func" for m in model_names}:
                 raise Unsupported("debug block calls the user function directly")
     ex.st.assumptions.add("ModelGroup.run debug block abstracted (frame: detector._intermediate); model invocations inside it are executed")
 
@@ -430,6 +432,51 @@ for seed in range(5):
 
 
 # ---- 7. single entry point ---------------------------------------------------------------------------
+def _functions(tree):
+    """(function node, enclosing class name | None) for every function of a module."""
+    out = []
+
+    def walk(node, cls):
+        for n in ast.iter_child_nodes(node):
+            if isinstance(n, ast.ClassDef):
+                walk(n, n.name)
+            elif isinstance(n, (ast.FunctionDef, ast.AsyncFunctionDef)):
+                out.append((n, cls))
+                walk(n, cls)
+            else:
+                walk(n, cls)
+    walk(tree, None)
+    return out
+
+
+def _typed_names(fn, cls_name):
+    """Names of a function known to hold a ModelFunction / ModelGroup: from annotations (parameters, annotated
+    assignments) and from iteration over a ModelGroup / its `.models` (the NAMES themselves are incidental)."""
+    types = {}
+
+    def of_ann(a):
+        t = ast.unparse(a) if a is not None else ""
+        for k in ("ModelFunction", "ModelGroup"):
+            if k in t and "Sequence" not in t and "list" not in t.lower() and "Iterator" not in t:
+                return k
+        return None
+    for a in fn.args.args + fn.args.kwonlyargs:
+        if of_ann(a.annotation):
+            types[a.arg] = of_ann(a.annotation)
+    if cls_name in ("ModelFunction", "ModelGroup") and fn.args.args and fn.args.args[0].arg == "self":
+        types["self"] = cls_name
+    for _ in range(2):
+        for n in ast.walk(fn):
+            if isinstance(n, ast.AnnAssign) and isinstance(n.target, ast.Name) and of_ann(n.annotation):
+                types[n.target.id] = of_ann(n.annotation)
+            if isinstance(n, (ast.For, ast.comprehension)) and isinstance(n.target, ast.Name):
+                it = n.iter
+                if (isinstance(it, ast.Name) and types.get(it.id) == "ModelGroup") or (isinstance(it, ast.Attribute) and it.attr == "models"):
+                    types[n.target.id] = "ModelFunction"
+    return types
+
+
+
 @unit("C01", "modes.single_entry")
 def single_entry(u: Unit):
     """Outside pyxel/models, user model functions are invoked only inside ModelFunction.__call__, model objects are
@@ -438,14 +485,17 @@ def single_entry(u: Unit):
     for mi in u.world.all_modules():
         if mi.relpath.startswith(("pyxel/models/", "pyxel/util/")):
             continue        # pyxel/util/timing.py is a profiling helper, not a running mode (stated scope)
-        for n in ast.walk(mi.tree):
-            if isinstance(n, ast.Call):
-                f = ast.unparse(n.func)
-                if f.endswith(".func") and not f.endswith("fitness_func"):
+        for fn, cls_name in _functions(mi.tree):
+            types = _typed_names(fn, cls_name)
+            for n in ast.walk(fn):
+                if not isinstance(n, ast.Call):
+                    continue
+                f = n.func
+                if isinstance(f, ast.Attribute) and f.attr == "func" and ast.unparse(f) != "self.fitness_func":
                     sites["func_call"].append(f"{mi.relpath}:{n.lineno}")
-                if f in ("model", "model_function"):
+                if isinstance(f, ast.Name) and types.get(f.id) == "ModelFunction":
                     sites["model_call"].append(f"{mi.relpath}:{n.lineno}")
-                if f.endswith("models_grp.run") or f.endswith("model_group.run") or f.endswith("group.run"):
+                if isinstance(f, ast.Attribute) and f.attr == "run" and isinstance(f.value, ast.Name) and types.get(f.value.id) == "ModelGroup":
                     sites["group_run"].append(f"{mi.relpath}:{n.lineno}")
     u.static("modes.single_entry[user function]", all(s.startswith(MF) for s in sites["func_call"]) and len(sites["func_call"]) >= 1, "", f"calls of <x>.func(...): {sites['func_call']}")
     u.static("modes.single_entry[model object]", all(s.startswith(MG) for s in sites["model_call"]) and len(sites["model_call"]) >= 1, "", f"calls of model(...): {sites['model_call']}")
